@@ -90,6 +90,16 @@ func (o *obj) BatchWriteScheduled() bool {
 
 func (o *obj) ResetBatchWriteScheduled() { o.scheduled = false }
 
+// brokenObj panics when it is asked whether it is scheduled already (a typed nil pointer in real life).
+type brokenObj struct{ w *world }
+
+func (b *brokenObj) BatchWrite(kvstore.BatchedMutations) {
+	b.w.s.Fail("exactly-once", "broken-object-written", "BatchWrite called for an object whose Enqueue panicked")
+}
+func (b *brokenObj) BatchWriteDone()           {}
+func (b *brokenObj) BatchWriteScheduled() bool { panic("BatchWriteScheduled gives up") }
+func (b *brokenObj) ResetBatchWriteScheduled() {}
+
 func (w *world) stored(id int) (uint64, bool) {
 	v, err := w.store.Get(key(id))
 	if err != nil {
@@ -126,14 +136,16 @@ func writer(s *simrt.Sim) {
 	for p := 0; p < nprod; p++ {
 		n := 1 + s.Choose(simrt.Bound(4, 7))
 		type step struct {
-			obj   int
-			del   bool
-			sleep time.Duration
+			obj    int
+			del    bool
+			broken bool // an object whose BatchWriteScheduled panics; the producer recovers and goes on
+			sleep  time.Duration
 		}
 		steps := make([]step, n)
 		for i := range steps {
 			steps[i].obj = s.Choose(nobj)
 			steps[i].del = s.Choose(4) == 3
+			steps[i].broken = s.Choose(16) == 15
 			if s.Choose(4) == 3 {
 				steps[i].sleep = simrt.Knob(s, to/4, to, 3*to)
 			}
@@ -151,6 +163,17 @@ func writer(s *simrt.Sim) {
 			for _, st := range steps {
 				if st.sleep > 0 {
 					simrt.Sleep(st.sleep)
+				}
+				if st.broken {
+					// the caller's own object gives up inside Enqueue: the panic reaches the caller, who recovers; the writer
+					// stays usable for everybody (whatever Enqueue held at that moment is released)
+					if firstEnqInv == 0 {
+						firstEnqInv = s.Tick() // (the first Enqueue starts the writer, whatever becomes of the call)
+					}
+					panicked, _ := hx.Try(func() { bw.Enqueue(&brokenObj{w}) })
+					s.Probe("enqueue-of-an-object-whose-BatchWriteScheduled-panics")
+					s.Logf("Enqueue of a broken object: panicked=%v", panicked)
+					continue
 				}
 				o := w.objs[st.obj]
 				nextVersion++
